@@ -230,11 +230,12 @@ def merge(a, b):
               "evaluations", "distinct_nontrivial"):
         ca[k] = ca.get(k, 0) + cb.get(k, 0)
     for k, v in cb.get("spec_to_code_by_op", {}).items():
+        ca.setdefault("spec_to_code_by_op", {})
         ca["spec_to_code_by_op"][k] = ca["spec_to_code_by_op"].get(k, 0) + v
     ca["tlc_instance"] = ca["tlc_instance"] + " + " + cb["tlc_instance"]
     ca["samples"] = ca["samples"] + cb["samples"][:1]
     for k, v in cb.items():
-        if k.startswith("family_") or k == "phase_seconds":
+        if k.startswith(("family_", "keyfamily_")) or k == "phase_seconds":
             ca[k] = v
     a.assumptions = a.assumptions + [x for x in b.assumptions if x not in a.assumptions]
     return a
